@@ -446,6 +446,78 @@ void stream_ops(Enumerator &E) {
 
 const char *SK_kind_name(unsigned sk) { TextArg a; a.kind = sk % SK__COUNT; return a.kind_name(); }
 
+// operands beyond the sizes at which helper objects inside the library would leave their in-object storage (32, 64, 256 bytes, 1 KiB),
+// and the case-insensitive variants of every search-based operation (the cells above stop at 40 elements and are case-sensitive)
+void big_operand_ops(Enumerator &E) {
+    const uint32_t HAY[] = {40, 300, 1100}, NEED[] = {5, 40, 300};
+    for (uint32_t hay : HAY)
+        for (uint32_t nd : NEED)
+            for (unsigned ci = 0; ci < 2; ci++) {
+                if (nd > hay) continue;
+                std::string cl = "hay=" + std::to_string(hay) + ",needle=" + std::to_string(nd);
+                std::string cs = ci ? ",ci" : "";
+                for (unsigned ov = 0; ov < 3; ov++) {
+                    Builder b; uint32_t s = b.str(hay); uint32_t n = b.str(nd);
+                    Op o; o.kind = S_SPLIT; o.a = s; o.b = n; o.c = 2; o.d = ov | (ci << 2);
+                    size_t ts = b.target(o);
+                    E.cell(nm("split", "ov" + std::to_string(ov) + cs + ",big", cl), b, ts);
+                }
+                for (unsigned ov = 0; ov < 4; ov++) {
+                    Builder b; uint32_t s = b.str(hay); uint32_t n = b.str(nd); uint32_t t2 = b.str(7);
+                    Op o; o.kind = S_REPLACE; o.a = s; o.b = n; o.c = t2; o.d = ov | (ci << 2);
+                    size_t ts = b.target(o);
+                    E.cell(nm("replace", "ov" + std::to_string(ov) + cs + ",big", cl), b, ts);
+                }
+                for (unsigned which = 0; which < 4; which++)
+                    for (unsigned ov = 0; ov < 3; ov++) {
+                        Builder b; uint32_t s = b.str(hay); uint32_t n = b.str(nd);
+                        Op o; o.kind = S_BEFORE_AFTER; o.a = s; o.b = n; o.c = which; o.d = ov | (ci << 2);
+                        size_t ts = b.target(o);
+                        E.cell(nm("before_after", "which" + std::to_string(which) + ",ov" + std::to_string(ov) + cs + ",big", cl), b, ts);
+                    }
+                for (unsigned which = 0; which < 5; which++)
+                    for (unsigned ov = 0; ov < 4; ov++) {
+                        Builder b; uint32_t s = b.str(hay); uint32_t n = b.str(nd);
+                        Op o; o.kind = S_FIND; o.a = s; o.b = n; o.c = 1004; o.d = 0 | (ci << 2) | (which << 3) | (ov << 6);
+                        size_t ts = b.target(o);
+                        E.cell(nm("find", "which" + std::to_string(which) + ",ov" + std::to_string(ov) + cs + ",big", cl), b, ts);
+                    }
+                if (!ci)
+                    for (unsigned which = 0; which < 8; which++) {
+                        Builder b; uint32_t s = b.str(hay); uint32_t n = b.str(nd);
+                        Op o; o.kind = S_COMPARE; o.a = s; o.b = n; o.c = 1003; o.d = which;
+                        size_t ts = b.target(o);
+                        E.cell(nm("compare", "which" + std::to_string(which) + ",big", cl), b, ts);
+                    }
+            }
+    // format strings with 300 / 1100 bytes of literal text, every spelling of the call
+    for (unsigned fi = 11; fi < 13; fi++)
+        for (unsigned var = 0; var < 8; var++)
+            for (uint32_t a1 : {5u, 40u, 300u}) {
+                Builder b; uint32_t s = b.str(a1); uint32_t t2 = b.str(16);
+                Op o; o.kind = S_FORMAT; o.a = s; o.b = t2; o.c = fi; o.d = var;
+                size_t ts = b.target(o);
+                E.cell(nm("format", "fmt" + std::to_string(fi) + ",var" + std::to_string(var) + ",big", "a1=" + std::to_string(a1)), b, ts);
+            }
+    // one-string operations on big receivers
+    struct K { uint16_t kind; const char *name; unsigned nvar; };
+    const K ks[] = {{S_SUBSTR, "substr", 8}, {S_TRIM, "trim", 3}, {S_CASE, "case", 2}, {S_TOKENIZE, "tokenize", 1}, {S_TO_BUF, "to_buf", 6},
+                    {S_TO_STD, "to_std", 12}, {S_OVERLOADS, "overloads", 11}, {S_CODEC, "codec", 4}, {S_HASH, "hash", 1}, {S_READ, "read", 5}};
+    for (const K &k : ks)
+        for (unsigned var = 0; var < k.nvar; var++)
+            for (uint32_t sz : {300u, 1100u}) {
+                Builder b; Op o; o.kind = k.kind; o.a = b.str(sz);
+                switch (k.kind) {
+                case S_SUBSTR: o.b = (var & 1) ? 1 : 0; o.c = (var & 1) ? 1003 : 1004; o.d = (var >> 1) << 1; break;
+                case S_TRIM: o.b = var; o.c = 2; break;
+                case S_TOKENIZE: o.b = 5; break;
+                default: o.b = var; break;
+                }
+                size_t ts = b.target(o);
+                E.cell(nm(k.name, "var" + std::to_string(var) + ",big", "arg=" + std::to_string(sz)), b, ts);
+            }
+}
+
 void enum_c19(unsigned part, unsigned parts, uint64_t from, EnumVisit visit, void *user, EnumTotals &tot) {
     Enumerator E{part, parts ? parts : 1, visit, user, tot};
     E.from = from;
@@ -455,6 +527,7 @@ void enum_c19(unsigned part, unsigned parts, uint64_t from, EnumVisit visit, voi
     text_ops(E);
     char_ops(E);
     misc_string_ops(E);
+    big_operand_ops(E);      // (appended last: the indices of all earlier cells stay what they were)
 }
 
 } // namespace A
